@@ -78,10 +78,11 @@ def showState (s : NState) : String :=
       | none => "-"
     s!"{r}:h={hd}:p={pr}:d={dc}:s={sc}"))
   let keys : List String :=
-    (s.ci.disk.presence.flatMap (fun e => e.2.map (fun o => s!"c:{e.1}:{ovName o.1}"))) ++
-    (s.ci.disk.discover.flatMap (fun e => e.2.map (fun o => s!"d:{e.1}:{ovName o.1}"))) ++
-    (s.ci.disk.source.flatMap (fun e => e.2.chunks.map (fun o => s!"sc:{e.1}:{ovName o.1}"))) ++
-    (s.ci.disk.source.flatMap (fun e => match e.2.pyramid with | some o => [s!"sp:{e.1}:{ovName o}"] | none => [])) ++
+    (s.ci.disk.keys.map (fun k => match k with
+      | .chunk r o => s!"c:{r}:{ovName o}"
+      | .discover r o => s!"d:{r}:{ovName o}"
+      | .sourceChunk r o => s!"sc:{r}:{ovName o}"
+      | .sourcePyramid r o => s!"sp:{r}:{ovName o}")) ++
     (s.pinned.map (fun r => s!"rp:{r}"))
   let K := joinWith "," (insSort (fun a b => decide (a < b)) keys)
   let L := natList s.pinned
@@ -216,6 +217,66 @@ def step (d : DState) (line : List String) : DState × String :=
       if unstable then (d, "unstable") else
       let (s1, n) := gc s c
       out d s1 s!"ok c={n}"
+  | ["gcr", c, trig, act, tgt, which] =>
+    match c.toNat?, specEntries trig, specEntries tgt with
+    | some c, some _, some _ =>
+      -- shape of the racing operation
+      let sel? : Option (Option (Bool × Nat)) :=      -- none = bad; some none = pin/unpin; some (isHash, i) = get
+        if act == "pin" || act == "unpin" then (if which == "-" then some none else none)
+        else if act == "get" then
+          if which.length < 2 || !(which.startsWith "d" || which.startsWith "h") then none
+          else ((which.drop 1).toString.toNat?).map (fun i => some (which.startsWith "h", i))
+        else none
+      match sel? with
+      | none => bad
+      | some sel =>
+        let unstable : Bool := s.ls.db.gc.any (fun e => match fileOfRoot s e.1.addr with
+          | some fi => fi.enc || !complete s fi.fs
+          | none => true)
+        if unstable then (d, "unstable") else
+        match s.files.lookup trig, s.files.lookup tgt with
+        | some ft, some fg =>
+          if ft.enc || fg.enc then bad else
+          let g := fg.fs
+          let a? : Option (Option Nat) := match sel with   -- none = bad index
+            | none => some none
+            | some (isHash, i) => ((if isHash then g.hash[i]? else g.data[i]?)).map some
+          match a? with
+          | none => bad
+          | some a? =>
+            if !known s g || !complete s g then (d, "unstable")
+            else if (match a? with | some a => !stored s a | none => false) then (d, "absent")
+            else
+              let op : RaceOp := fun w =>
+                if act == "pin" then apiPin w g
+                else if act == "unpin" then apiUnpin w g
+                else match a? with | some a => (nsGet w g a, 0) | none => (w, 0)
+              let (s1, n, fired) := gcRace s c ([ft.fs.root], op)
+              let r := match fired with
+                | none => "-"
+                | some code => if act == "get" then "ok" else toString code
+              out d s1 s!"ok c={n} f={if fired.isSome then 1 else 0} r={r}"
+        | _, _ => (d, "nofile")
+    | _, _, _ => bad
+  | ["gcr2", c, first, second] =>
+    match c.toNat?, specEntries first, specEntries second with
+    | some c, some _, some _ =>
+      let unstable : Bool := s.ls.db.gc.any (fun e => match fileOfRoot s e.1.addr with
+        | some fi => fi.enc || !complete s fi.fs
+        | none => true)
+      if unstable then (d, "unstable") else
+      match s.files.lookup first, s.files.lookup second with
+      | some f1, some f2 =>
+        if f1.enc || f2.enc then bad
+        else if !known s f1.fs || !complete s f1.fs then (d, "unstable")
+        else
+          let (s1, n, fired) := gcRace s c ([f1.fs.root, f2.fs.root], fun w => apiPin w f1.fs)
+          let r := match fired with
+            | none => "-"
+            | some code => toString code
+          out d s1 s!"ok c={n} f={if fired.isSome then 1 else 0} r={r}"
+      | _, _ => (d, "nofile")
+    | _, _, _ => bad
   | opname :: spec :: rest =>
     match specEntries spec with
     | none => bad
@@ -280,6 +341,19 @@ def step (d : DState) (line : List String) : DState × String :=
                 let wanted := (sub.zip mask.toList).filter (·.2 == '1') |>.map (·.1)
                 if !(t.all (fun a => f.all.contains a) && wanted.all (fun a => t.contains a)) then (d, "bad-annot")
                 else out d (t.foldl (fun s a => nsGet s f a) s) "ok"
+      | "serve", [which] =>
+        if fi.enc || which.length < 2 then bad else
+        match (which.drop 1).toString.toNat? with
+        | none => bad
+        | some i =>
+          let a? : Option Nat :=
+            if which.startsWith "h" then f.hash[i]? else if which.startsWith "d" then f.data[i]? else none
+          match a? with
+          | none => bad
+          | some a =>
+            if !known s f || !complete s f then (d, "unstable")
+            else if !stored s a then (d, "absent")
+            else out d (serve s f a) "ok"
       | "get", [which] =>
         if fi.enc || which.length < 2 then bad else
         match (which.drop 1).toString.toNat? with
